@@ -100,6 +100,7 @@ def run(ctx):
     corr = None
     drv = core.Driver()
     have = os.path.exists(drv.exe)
+    distinct = set()
     reach = []          # (text, how far the real lexer was driven)
     stats = collections.Counter()
     samples = []
@@ -125,6 +126,8 @@ def run(ctx):
                 data = lab.encode("ascii") + trailing(rng, kind)
                 res = entry_points(tmp, data, lab)
                 evals += len(res)
+                if kind != "none":
+                    distinct.update((hash(data), name) for name in res)
                 for name, r in res.items():
                     stats["%s:%s:%s" % (kind, name, "ok" if "ok" in r else r["fail"])] += 1
                     if bad is None and ("ok" not in r or r["ok"] != want):
@@ -196,8 +199,8 @@ def run(ctx):
         core.violation(ctx, "proof", {"what": "C09 proof obligations no longer check", "broken": lean["problems"]}, False)
     for f in kf:
         ctx.known_hits.append("%s %s" % (f["id"], f["what"]))
-    cov = {"evaluations": evals, "distinct_nontrivial": evals,
-           "rule": "%d generated ASCII labels x separators after END x 7 kinds of trailing bytes (none, random binary, "
+    cov = {"evaluations": evals, "distinct_nontrivial": len(distinct),
+           "rule": "non-trivial = distinct (bytes, entry point) pairs with trailing bytes after END; %d generated ASCII labels x separators after END x 7 kinds of trailing bytes (none, random binary, "
                    "valid UTF-8, NULs, long unbroken runs, bad byte right after END, bad byte beyond the 8 KiB mark) x "
                    "up to 8 entry points (path str, PathLike, file: URL, text stream, binary stream, bytes, BytesIO, "
                    "str); a character-counting lexer (public lexer_fn) measures how far the lexer was driven; dump() "
